@@ -53,6 +53,18 @@ def problems(tier):
         ("infeasible", fam.base(2, [fam.fx("t0", 2), fam.fx("t1", 1)], workers=W[:1], requirements=[
             {"task": "t0", "resource": "w0"}, {"task": "t1", "resource": "w0"}])),
     ]
+    # requests that follow an OPTIMISATION: the optimum comes first, the other valid timings must still all be visited
+    # (objectives whose first model is rarely the best one, so that the incremental loop iterates)
+    ind = lambda e: [{"id": "i", "kind": "FromExpr", "name": "q", "expr": e}]  # noqa
+    out += [
+        ("ff.startlatest", fam.base(4, [fam.fx("t0", 2), fam.fx("t1", 1)], objectives=[{"kind": "StartLatest"}])),
+        ("ff.flowtime", fam.base(4, [fam.fx("t0", 2), fam.fx("t1", 1)], objectives=[{"kind": "Flowtime"}])),
+        ("fo.max_user", fam.base(4, [fam.fx("t0", 1), fam.fx("t1", 1, optional=True)], indicators=ind(
+            ["+", ["start", "t0"], ["start", "t0"]]), objectives=[{"kind": "MaximizeIndicator", "indicator": "i",
+                                                                  "weight": 1}])),
+        ("fv.makespan.worker", fam.base(4, [fam.fx("t0", 1), fam.vr("t1", 1, 2)], workers=W[:1], requirements=[
+            {"task": "t0", "resource": "w0"}, {"task": "t1", "resource": "w0"}], objectives=[{"kind": "Makespan"}])),
+    ]
     if tier != "quick":
         out += [
             ("fvo", fam.base(5, [fam.fx("t0", 2), fam.vr("t1", 1, 3), fam.fx("t2", 1, optional=True)])),
@@ -197,6 +209,11 @@ def generate(tier, seed):
         for j in range(3 if tier == "quick" else 12):
             cases.append({"cid": f"chain-{name}-{j}", "family": "mixed-chain", "kind": "hist", "spec": spec,
                           "mode": "chain", "rng": seed * 100 + j})
+        if spec.get("objectives"):
+            cases.append({"cid": f"exhaust-optimize-{name}", "family": "exhaustion-after-optimize", "kind": "hist",
+                          "spec": spec, "mode": "another", "solver": {"optimizer": "optimize"}})
+            cases.append({"cid": f"chain-optimize-{name}", "family": "exhaustion-after-optimize", "kind": "hist",
+                          "spec": spec, "mode": "chain", "rng": seed, "solver": {"optimizer": "optimize"}})
     return cases
 
 
